@@ -28,6 +28,17 @@ template <typename Type>
 inline fcppt::intrusive::base<Type>::base(base &&_other) noexcept
     : prev_{_other.prev_}, next_{_other.next_}
 {
+  if (prev_ == &_other)
+  {
+    // _other is not linked anywhere (unlinked or moved-from): taking over its
+    // links would leave this element pointing at _other.
+    prev_ = this;
+
+    next_ = this;
+
+    return;
+  }
+
   prev_->next_ = this;
 
   next_->prev_ = this;
@@ -50,6 +61,16 @@ inline fcppt::intrusive::base<Type> &fcppt::intrusive::base<Type>::operator=(bas
   next_->prev_ = prev_;
 
   prev_->next_ = next_;
+
+  if (_other.prev_ == &_other)
+  {
+    // _other is not linked anywhere: this element ends up unlinked as well.
+    prev_ = this;
+
+    next_ = this;
+
+    return *this;
+  }
 
   prev_ = _other.prev_;
 
